@@ -4,7 +4,7 @@ import glob
 import json
 import os
 
-for d in sorted(glob.glob("/verif/seeded/*")):
+for d in sorted(x for x in glob.glob("/verif/seeded/*") if os.path.isdir(x)):
     mp, rp = os.path.join(d, "meta.json"), os.path.join(d, "result.json")
     if not (os.path.exists(mp) and os.path.exists(rp)):
         continue
